@@ -7,7 +7,9 @@ LEVEL = "proof"
 _T = ["chacha_xor_ic_eq", "chacha_stream_eq", "chacha_offset_law", "ietf_guard_iff", "ietf_no_wrap", "ietf_guard_prefix_needed", "salsa_ctr_inc",
       "salsa_xor_ic_eq", "salsa_stream_eq", "chacha_xor_ic_length", "salsa_xor_ic_length"]
 THEOREMS = vcore.theorems_in("SodiumModel/Properties/C03.lean", _T, "Sodium.C03")
+THEOREMS = THEOREMS + vcore.theorems_in("SodiumModel/Properties/C03Cores.lean", ['chacha20_ref_block_eq_spec', 'chacha20_ref_block_eq_blockOrig', 'chacha20_ref_block_eq_blockIetf', 'chacha20_ref_block_xor', 'chacha20_ref_block_xor_spec', 'chacha20_ref_counter_step', 'chacha20_ref_counter_step_value', 'chacha20_ref_block_length', 'chacha20_ref_eq_model', 'stream_ref_xor_ic_spec', 'stream_ref_spec', 'stream_ietf_ext_ref_xor_ic_spec', 'stream_ietf_ext_ref_spec', 'crypto_core_salsa_spec', 'crypto_core_salsa20_spec', 'crypto_core_salsa2012_spec', 'crypto_core_salsa208_spec', 'crypto_core_salsa_any_rounds', 'crypto_core_salsa_odd_rounds', 'crypto_core_salsa_block', 'crypto_core_hsalsa20_spec', 'crypto_core_hchacha20_spec', 'xchacha20_ref_block_eq_spec', 'xsalsa20_ref_block_eq_spec', 'driver_chachaB', 'driver_chachaBi', 'driver_salsaS'], "Sodium.C03Cores")
 IMPORTS = ["SodiumModel.Properties.C03"] if THEOREMS else ["SodiumModel.Model.Stream"]
+IMPORTS = IMPORTS + ["SodiumModel.Properties.C03Cores"]
 RULE = ("every length 0..2304 for the ChaCha20 and Salsa20 XOR forms, sampled/boundary lengths for the other functions; block counters 0, "
         "random, 2^32 +- 16, 2^64-1-16..2^64-1; IETF counter at the guard boundary +- 1 (misuse observed in a child); "
         "HChaCha20/HSalsa20/Salsa cores with and without custom constants; configurations = CPU masks (AVX2 / SSSE3 / ref, xmm6 asm) "
